@@ -208,7 +208,16 @@ class TagSelection(Selection):
       if isinstance(value, config_lib.Buildable):
         for name, tags in value.__argument_tags__.items():
           if any(issubclass(tag, self.tag) for tag in tags):
-            yield getattr(value, name, tagging.NO_VALUE)
+            if isinstance(name, int):
+              # Positional-only and *args arguments are addressed by index.
+              positional = value[:]
+              yield (
+                  positional[name]
+                  if name < len(positional)
+                  else tagging.NO_VALUE
+              )
+            else:
+              yield getattr(value, name, tagging.NO_VALUE)
 
   def replace(self, value: Any, deepcopy: bool = True) -> None:
 
@@ -217,7 +226,11 @@ class TagSelection(Selection):
         for name, tags in node_value.__argument_tags__.items():
           if any(issubclass(tag, self.tag) for tag in tags):
             to_set = value if not deepcopy else copy.deepcopy(value)
-            setattr(node_value, name, to_set)
+            if isinstance(name, int):
+              # Positional-only and *args arguments are addressed by index.
+              node_value[name] = to_set
+            else:
+              setattr(node_value, name, to_set)
 
   def get(self, name: str) -> Iterator[Any]:
     raise NotImplementedError(
